@@ -67,7 +67,7 @@ func analysed(path string) bool {
 }
 
 // source kinds; the order is the constructor order of Determinism/Graph.v [kind]
-var kinds = []string{"Clock", "Entropy", "HostEnv", "MapRange", "Goroutine", "Select", "Float", "TaintedGlobal", "GlobalWrite", "SharedMapWrite"}
+var kinds = []string{"Clock", "Entropy", "HostEnv", "MapRange", "Goroutine", "Select", "Float", "TaintedGlobal", "GlobalWrite", "SharedMapWrite", "SharedValueMutation"}
 
 type source struct {
 	Fn     string `json:"fn"`
@@ -358,6 +358,11 @@ func main() {
 				}
 				if ci, ok := in.(ssa.CallInstruction); ok {
 					c := ci.Common()
+					if callee != nil && isMathMutator(callee) && len(c.Args) > 0 && !isInit(f) {
+						if root, local := valueOrigin(c.Args[0], 0); !local {
+							add("SharedValueMutation", "in-place "+shortFn(callee)+" on a value this function did not create ("+root+")", in.Pos())
+						}
+					}
 					if callee != nil {
 						if _, own := idOf[callee]; !own {
 							if k, d := sourceCallee(callee); k != "" {
@@ -679,6 +684,88 @@ func globalRoot(v ssa.Value) *ssa.Global {
 		}
 	}
 	return nil
+}
+
+// isMathMutator: the in-place (pointer-sharing) arithmetic of cosmossdk.io/math — LegacyDec.AddMut,
+// SubMut, MulMut, MulTruncateMut, QuoMut, QuoTruncateMut, QuoRoundupMut, NegMut, ..., and Set*.  A
+// LegacyDec is a struct around a *big.Int: copying the value (parameter passing, reading it out of a
+// map entry or a keeper field) shares the big.Int, so a *Mut call rewrites every copy.
+func isMathMutator(f *ssa.Function) bool {
+	if f.Signature.Recv() == nil {
+		return false
+	}
+	pkg := ""
+	if f.Pkg != nil {
+		pkg = f.Pkg.Pkg.Path()
+	} else if obj := f.Object(); obj != nil && obj.Pkg() != nil {
+		pkg = obj.Pkg().Path()
+	}
+	if pkg != "cosmossdk.io/math" {
+		return false
+	}
+	n := f.Name()
+	return strings.HasSuffix(n, "Mut") || n == "Set" || strings.HasPrefix(n, "SetInt")
+}
+
+// valueOrigin: is the receiver of an in-place operation a value this function made itself (the result
+// of a non-mutating call such as Clone / NewDec / Add, possibly through further *Mut calls and local
+// variables), or one it was handed (parameter, field, map entry, package variable, captured variable)?
+func valueOrigin(v ssa.Value, depth int) (string, bool) {
+	if depth > 12 {
+		return "deep", false
+	}
+	switch x := v.(type) {
+	case *ssa.Call:
+		if cal := x.Common().StaticCallee(); cal != nil && isMathMutator(cal) && len(x.Common().Args) > 0 {
+			return valueOrigin(x.Common().Args[0], depth+1) // a *Mut call returns its receiver
+		}
+		return "call result", true
+	case *ssa.Extract:
+		return "call result", true
+	case *ssa.Const:
+		return "constant", true
+	case *ssa.Phi:
+		for _, e := range x.Edges {
+			if r, ok := valueOrigin(e, depth+1); !ok {
+				return r, false
+			}
+		}
+		return "phi", true
+	case *ssa.Alloc:
+		if x.Referrers() != nil {
+			for _, ref := range *x.Referrers() {
+				if st, ok := ref.(*ssa.Store); ok && st.Addr == x {
+					if r, ok := valueOrigin(st.Val, depth+1); !ok {
+						return r, false
+					}
+				}
+			}
+		}
+		return "local variable", true
+	case *ssa.UnOp:
+		if x.Op == token.MUL {
+			return valueOrigin(x.X, depth+1)
+		}
+	case *ssa.MakeInterface:
+		return valueOrigin(x.X, depth+1)
+	case *ssa.ChangeType:
+		return valueOrigin(x.X, depth+1)
+	case *ssa.Parameter:
+		return "parameter " + x.Name(), false
+	case *ssa.FreeVar:
+		return "captured " + x.Name(), false
+	case *ssa.Global:
+		return "package variable " + x.Name(), false
+	case *ssa.FieldAddr:
+		return "field " + fieldName(x.X.Type(), x.Field), false
+	case *ssa.Field:
+		return "field " + fieldName(x.X.Type(), x.Field), false
+	case *ssa.Lookup:
+		return "map entry", false
+	case *ssa.IndexAddr, *ssa.Index:
+		return "element", false
+	}
+	return fmt.Sprintf("%T", v), false
 }
 
 // mapOrigin traces the map operand of a map update back to where the map comes from.  Local = created
